@@ -10,3 +10,29 @@ Theorem C19_zero_only_with_subtype_90 : forall m a, wf_msg m -> verify m = Accep
   amount_of m = Some a -> a <> [] -> forallb (beqb x30) a = true -> subtype_of m = Some (bs "90").
 Proof. exact zero_amount_needs_subtype_90. Qed.
 Print Assumptions C19_zero_only_with_subtype_90.
+
+(* what the writer emits for {2000}: the marker, then the amount with nothing but leading zeros added - no
+   digit of an accepted amount is cut or changed (an accepted amount has at most 12 digits, see above) *)
+From Wire Require Import Model.Converters Model.Codec.
+From WireGen Require Import Tags.
+
+Theorem C19_written_amount_keeps_every_digit : forall v a variable,
+  tv_elems v = [a] -> length a <= 12 ->
+  format_tag tag_Amount variable v = Some (tv_marker v ++ brepeat zero (12 - length a) ++ a).
+Proof.
+  intros v a variable Hv Hl. unfold format_tag. cbn [t_format tag_Amount run_format app]. unfold elem_val. rewrite Hv. cbn [nth].
+  unfold numeric_string_field. change (nn 12) with 12.
+  replace (12 <? length a) with false by (symmetry; apply Nat.ltb_ge; exact Hl).
+  assert (Hs : valid_size_uint (12 - length a) = true).
+  { unfold valid_size_uint, max_buffer_growth. apply N.ltb_lt. lia. }
+  rewrite Hs. reflexivity.
+Qed.
+Print Assumptions C19_written_amount_keeps_every_digit.
+
+Theorem C19_full_width_amount_is_written_verbatim : forall v a variable,
+  tv_elems v = [a] -> length a = 12 -> format_tag tag_Amount variable v = Some (tv_marker v ++ a).
+Proof.
+  intros v a variable Hv Hl. rewrite (C19_written_amount_keeps_every_digit v a variable Hv) by lia.
+  rewrite Hl. reflexivity.
+Qed.
+Print Assumptions C19_full_width_amount_is_written_verbatim.
